@@ -583,7 +583,7 @@ std::string handle_realtime(const JV &req) {
                 return;
             }
             if (!cfg.bool_or("count_drain", true)) { std::this_thread::sleep_for(std::chrono::milliseconds(20)); return; }
-            const bool ok = wait_for([&] { return ctx.delivered.load() >= accepted.load() || run_done.load(); }, cfg.int_or("drain_timeout_us", 20'000'000));
+            const bool ok = wait_for([&] { return ctx.delivered.load() >= accepted.load() + ctx.loop_accepted.load() || run_done.load(); }, cfg.int_or("drain_timeout_us", 20'000'000));
             log("[\"drain\"," + std::to_string(ph) + "," + (ok ? "true" : "false") + "," + std::to_string(ctx.delivered.load()) + "," + std::to_string(accepted.load()) + "," + std::to_string(wall_us() - t_start) + "]");
         };
         phase.store(1);
